@@ -51,7 +51,7 @@ import (
 type c40Col struct {
 	Def    string // SQL type
 	Family string
-	Bounds func() []string          // boundary literals
+	Bounds func() []string         // boundary literals
 	Rand   func(*rand.Rand) string // random literal
 	Heavy  bool                    // large values: only in the dedicated family table
 }
@@ -480,7 +480,9 @@ func c40Catalogue() []c40Col {
 		c40LobCol("tinyblob", 255, false), c40LobCol("blob", 65535, false), c40LobCol("mediumblob", 1<<24-1, false), c40LobCol("longblob", 1<<30, false),
 		c40Col{Def: "json", Family: "json", Heavy: true, Bounds: c40JSONBounds, Rand: func(rng *rand.Rand) string { return c40JSONLit(c40JSONRand(rng, 0)) }},
 		c40Col{Def: "point", Family: "geometry", Bounds: lit("point(0,0)", "point(1,2)", "point(-1.5,1e300)", "ST_GeomFromText('POINT(1 2)', 4326)"),
-			Rand: func(rng *rand.Rand) string { return fmt.Sprintf("point(%v,%v)", rng.NormFloat64()*100, rng.NormFloat64()*100) }},
+			Rand: func(rng *rand.Rand) string {
+				return fmt.Sprintf("point(%v,%v)", rng.NormFloat64()*100, rng.NormFloat64()*100)
+			}},
 		c40Col{Def: "linestring", Family: "geometry", Bounds: lit("linestring(point(0,0),point(1,1))", "linestring(point(0,0),point(1,1),point(2,-2),point(1e10,5))"),
 			Rand: func(rng *rand.Rand) string {
 				return fmt.Sprintf("linestring(point(%v,%v),point(%v,%v))", rng.Intn(100), rng.Intn(100), rng.NormFloat64(), rng.NormFloat64())
@@ -1087,9 +1089,9 @@ func TestVerifC40(t *testing.T) {
 
 	var (
 		cells, nulls, rowsN, insertRejected, rowLenBad, serializeErrors int
-		famCells                                      = map[string]int{}
-		perKey                                        = map[string]int{}
-		rejectedSamples                               []string
+		famCells                                                        = map[string]int{}
+		perKey                                                          = map[string]int{}
+		rejectedSamples                                                 []string
 	)
 	viol := func(key, what string, w any) {
 		perKey[key]++
@@ -1301,7 +1303,15 @@ func TestVerifC40(t *testing.T) {
 			viol("c40/decode/table-map", "vitess cannot parse the TableMap event: "+err.Error(), map[string]any{"table": tb.name, "columns": defs})
 			continue
 		}
-		drows, err := rowsEv.Rows(*format, tm)
+		var drows mysql.Rows
+		func() {
+			defer func() {
+				if r := recover(); r != nil {
+					err = fmt.Errorf("panic: %v", r)
+				}
+			}()
+			drows, err = rowsEv.Rows(*format, tm)
+		}()
 		if err != nil {
 			viol("c40/decode/rows-event", "vitess cannot parse the WriteRows event: "+err.Error(), map[string]any{"table": tb.name, "columns": defs})
 			continue
